@@ -131,7 +131,8 @@ func (encryptor *HashQuery) OnQuery(ctx context.Context, query mysql.OnQueryObje
 		// substring(column, 1, <HMAC_size>) = 'value' ===> substring(column, 1, <HMAC_size>) = <HMAC('value')>
 		// substring(column, 1, <HMAC_size>) = $1      ===> no changes
 		err := mysql.UpdateExpressionValue(ctx, item.Expr.Right, encryptor.coder, item.Setting, encryptor.calculateHmac)
-		if err != nil {
+		// an empty search value stays as it is (see calculateHmac)
+		if err != nil && err != mysql.ErrUpdateLeaveDataUnchanged {
 			logrus.WithError(err).Debugln("Failed to update expression")
 			return query, false, err
 		}
@@ -246,6 +247,10 @@ func (encryptor *HashQuery) replaceValuesWithHMACs(ctx context.Context, values [
 }
 
 func (encryptor *HashQuery) calculateHmac(ctx context.Context, data []byte) ([]byte, error) {
+	// empty values are stored as they are, without a hash: they are found by comparing with the empty value itself
+	if len(data) == 0 {
+		return data, nil
+	}
 	accessContext := base.AccessContextFromContext(ctx)
 	if !encryptor.decryptor.MatchDataSignature(data) {
 		key, err := encryptor.keystore.GetHMACSecretKey(accessContext.GetClientID())
